@@ -128,21 +128,21 @@ void op_keygen(const Case& c, TaskCtx& t, Outcome& o) {
                         (t.env.rng_fail_kind == RNGF_SHORT && t.env.rng_fail_req < 8 &&
                          (t.env.rng_short_n < 0 ? t.env.rng_req_len[t.env.rng_fail_req] > 0 : (size_t)t.env.rng_short_n < t.env.rng_req_len[t.env.rng_fail_req]));
     if (real_failure && rc == 0)
-      return (void)o.fail("C07.key_returned_despite_rng_failure", std::string(p.name) + " surf" + std::to_string(surf) + ": keygen returned 0 although entropy request " +
+      CHECK_FAIL("C07.key_returned_despite_rng_failure", std::string(p.name) + " surf" + std::to_string(surf) + ": keygen returned 0 although entropy request " +
                                                                       std::to_string(t.env.rng_fail_req) + " failed (" + fk + ")");
     if (real_failure)
       return;
   }
   if (rc != 0)
-    return (void)o.fail("C07.keygen_failed", std::string(p.name) + " surf" + std::to_string(surf) + ": keygen failed with a working entropy source");
+    CHECK_FAIL("C07.keygen_failed", std::string(p.name) + " surf" + std::to_string(surf) + ": keygen failed with a working entropy source");
   // layout
   if (skser[0] != param || pkser[0] != param)
-    return (void)o.fail("C07.wrong_parameter_byte", "key carries parameter byte " + std::to_string(skser[0]) + "/" + std::to_string(pkser[0]));
+    CHECK_FAIL("C07.wrong_parameter_byte", "key carries parameter byte " + std::to_string(skser[0]) + "/" + std::to_string(pkser[0]));
   bytes ksk(skser.begin() + 1, skser.begin() + 1 + p.ios), kC(skser.begin() + 1 + p.ios, skser.begin() + 1 + 2 * p.ios), kpt(skser.begin() + 1 + 2 * p.ios, skser.end());
   bytes pC(pkser.begin() + 1, pkser.begin() + 1 + p.ios), ppt(pkser.begin() + 1 + p.ios, pkser.end());
   uint8_t padm = (uint8_t)~(0xff << (8 * p.ios - p.n));
   if ((ksk.back() & padm) || (kC.back() & padm) || (kpt.back() & padm))
-    return (void)o.fail("C07.padding_bits_set", std::string(p.name) + ": padding bits of a generated key are not zero");
+    CHECK_FAIL("C07.padding_bits_set", std::string(p.name) + ": padding bits of a generated key are not zero");
   // exactly the delivered bits: sk and pt are disjoint windows of the delivered bytes
   size_t consumed = t.env.rng_pos;
   bool found = false;
@@ -150,25 +150,25 @@ void op_keygen(const Case& c, TaskCtx& t, Outcome& o) {
     if (find_window(stream, consumed, kpt, p.n, p.ios, a) >= 0)
       found = true;
   if (!found)
-    return (void)o.fail("C07.key_bits_not_the_delivered_entropy",
+    CHECK_FAIL("C07.key_bits_not_the_delivered_entropy",
                         std::string(p.name) + " surf" + std::to_string(surf) + " stream=" + c.s("rs") + (c.has("rbit") ? " bit " + c.s("rbit") : "") +
                             ": secret key and plaintext are not two disjoint " + std::to_string(p.n) + "-bit windows of the " + std::to_string(consumed) + " delivered bytes (sk=" +
                             model::hex(ksk) + " pt=" + model::hex(kpt) + ")");
   // public key = LowMC(pt) under sk, embedded consistently
   bytes Cm = model::lowmc_encrypt_bytes(p, ksk, kpt);
   if (Cm != pC)
-    return (void)o.fail("C07.public_key_not_lowmc", std::string(p.name) + " " + family_tag(c) + ": public key is not the LowMC encryption of the plaintext under the key");
+    CHECK_FAIL("C07.public_key_not_lowmc", std::string(p.name) + " " + family_tag(c) + ": public key is not the LowMC encryption of the plaintext under the key");
   if (kC != pC || kpt != ppt)
-    return (void)o.fail("C07.private_key_embeds_other_public_key", std::string(p.name) + ": private key does not embed the returned public key");
+    CHECK_FAIL("C07.private_key_embeds_other_public_key", std::string(p.name) + ": private key does not embed the returned public key");
   // validation and derivation agree (generic surface, clean environment)
   bytes skst = skser, pkst = pkser;
   skst.resize(std::max<size_t>(tc_sizeof_privatekey, skst.size()), 0x77);
   pkst.resize(std::max<size_t>(tc_sizeof_publickey, pkst.size()), 0x77);
   if (cleancall([&] { return picnic_validate_keypair(skst.data(), pkst.data()); }) != 0)
-    return (void)o.fail("C07.generated_pair_does_not_validate", std::string(p.name) + ": picnic_validate_keypair rejects the generated pair");
+    CHECK_FAIL("C07.generated_pair_does_not_validate", std::string(p.name) + ": picnic_validate_keypair rejects the generated pair");
   bytes pk2(pkst.size(), 0);
   if (cleancall([&] { return picnic_sk_to_pk(skst.data(), pk2.data()); }) != 0 || memcmp(pk2.data(), pkser.data(), pkser.size()) != 0)
-    return (void)o.fail("C07.sk_to_pk_disagrees", std::string(p.name) + ": picnic_sk_to_pk of the generated private key differs from the returned public key");
+    CHECK_FAIL("C07.sk_to_pk_disagrees", std::string(p.name) + ": picnic_sk_to_pk of the generated private key differs from the returned public key");
   if (t.stats) {
     t.stats->hit("c07.keys_checked");
     if (c.s("rs") == "unit") {
@@ -207,25 +207,25 @@ void op_lowmc(const Case& c, TaskCtx& t, Outcome& o) {
     t.stats->tuple(std::string("lowmc-") + std::to_string(p.n) + "-" + std::to_string(p.r) + "|" + family_tag(c) + "|surf" + std::to_string(surf) + "|" + c.s("kpat", "rand"));
   }
   if (rc != 0)
-    return (void)o.fail("C10.sk_to_pk_failed", std::string(p.name) + ": sk_to_pk returned " + std::to_string(rc));
+    CHECK_FAIL("C10.sk_to_pk_failed", std::string(p.name) + ": sk_to_pk returned " + std::to_string(rc));
   if (C != k.C)
-    return (void)o.fail("C10.ciphertext_differs_from_specification",
+    CHECK_FAIL("C10.ciphertext_differs_from_specification",
                         std::string("LowMC ") + std::to_string(p.n) + "/" + std::to_string(p.r) + " via " + p.name + " on " + family_tag(c) + " surf" + std::to_string(surf) + " key pattern " +
                             c.s("kpat", "rand") + (c.has("kbit") ? " bit " + c.s("kbit") : "") + ": got " + model::hex(C) + " expected " + model::hex(k.C));
   if (pt != k.pt || (surf == 0 && pkst[0] != param))
-    return (void)o.fail("C10.public_key_layout", std::string(p.name) + ": derived public key does not carry the plaintext / parameter byte");
+    CHECK_FAIL("C10.public_key_layout", std::string(p.name) + ": derived public key does not carry the plaintext / parameter byte");
   // validation recomputes the same encryption: accepts the true pair, rejects a pair with one ciphertext bit off
   bytes sk_ok = surf == 1 ? param_sk_struct(k) : generic_sk_struct(k), pk_ok = surf == 1 ? param_pk_struct(k) : generic_pk_struct(k);
   int v = libcall(t, [&] { return surf == 1 ? param_api(param).validate_keypair(sk_ok.data(), pk_ok.data()) : picnic_validate_keypair(sk_ok.data(), pk_ok.data()); });
   if (v != 0)
-    return (void)o.fail("C10.validate_rejects_true_pair", std::string(p.name) + " " + family_tag(c) + ": validate_keypair rejects (sk, LowMC_sk(pt))");
+    CHECK_FAIL("C10.validate_rejects_true_pair", std::string(p.name) + " " + family_tag(c) + ": validate_keypair rejects (sk, LowMC_sk(pt))");
   model::Key bad = k;
   size_t fb = (size_t)(c.u("kseed", 1) % p.n);
   bad.C[fb >> 3] ^= (uint8_t)(0x80 >> (fb & 7));
   bytes sk_b = surf == 1 ? param_sk_struct(bad) : generic_sk_struct(bad), pk_b = surf == 1 ? param_pk_struct(bad) : generic_pk_struct(bad);
   v = libcall(t, [&] { return surf == 1 ? param_api(param).validate_keypair(sk_b.data(), pk_b.data()) : picnic_validate_keypair(sk_b.data(), pk_b.data()); });
   if (v == 0)
-    return (void)o.fail("C10.validate_accepts_wrong_ciphertext", std::string(p.name) + " " + family_tag(c) + ": validate_keypair accepts a pair whose ciphertext bit " + std::to_string(fb) + " is flipped");
+    CHECK_FAIL("C10.validate_accepts_wrong_ciphertext", std::string(p.name) + " " + family_tag(c) + ": validate_keypair accepts a pair whose ciphertext bit " + std::to_string(fb) + " is flipped");
 }
 
 // ------------------------------------------------------------------------------------------------ key store: import (C11, C05)
@@ -291,18 +291,18 @@ void op_import(const Case& c, TaskCtx& t, Outcome& o) {
                    "|" + (padzero ? "pad0" : "pad!") + "|" + (rc == 0 ? "ok" : "reject"));
   }
   if (memcmp(buf.p, ser.data(), n) != 0)
-    return (void)o.fail("C05.const_input_modified", "key import modified its input buffer");
+    CHECK_FAIL("C05.const_input_modified", "key import modified its input buffer");
   if (!c.has("chk") || c.s("chk").find("c11") == std::string::npos)
     return;
   std::string what = std::string(sk ? "read_private_key" : "read_public_key") + " surf" + std::to_string(surf) + " parameter byte " + std::to_string(pb) + " length " + std::to_string(n);
   if (expect && rc != 0)
-    return (void)o.fail("C11.import_rejected_valid_key", what + ": rejected a well-formed key");
+    CHECK_FAIL("C11.import_rejected_valid_key", what + ": rejected a well-formed key");
   if (!expect && rc == 0)
-    return (void)o.fail("C11.import_accepted_invalid_key", what + ": accepted (" + (!enabled ? "unknown/disabled parameter byte" : n < size ? "buffer shorter than the key" : !padzero ? "non-zero padding bits" : "foreign parameter byte") + ")");
+    CHECK_FAIL("C11.import_accepted_invalid_key", what + ": accepted (" + (!enabled ? "unknown/disabled parameter byte" : n < size ? "buffer shorter than the key" : !padzero ? "non-zero padding bits" : "foreign parameter byte") + ")");
   if (rc == 0) {
     size_t o0 = surf == 1 ? 1 : 0;
     if (memcmp(st.data(), ser.data() + o0, size - o0) != 0)
-      return (void)o.fail("C11.imported_key_differs", what + ": imported key bytes differ from the encoded key");
+      CHECK_FAIL("C11.imported_key_differs", what + ": imported key bytes differ from the encoded key");
     // export reproduces the bytes
     bytes out(size + 8, 0x42);
     int w = cleancall([&] {
@@ -311,11 +311,11 @@ void op_import(const Case& c, TaskCtx& t, Outcome& o) {
       return sk ? picnic_write_private_key(st.data(), out.data(), out.size()) : picnic_write_public_key(st.data(), out.data(), out.size());
     });
     if (w != (int)size || memcmp(out.data(), ser.data(), size) != 0)
-      return (void)o.fail("C11.roundtrip_not_identity", what + ": export after import returned " + std::to_string(w) + " / different bytes");
+      CHECK_FAIL("C11.roundtrip_not_identity", what + ": export after import returned " + std::to_string(w) + " / different bytes");
     if (surf == 0) {
       int gp = cleancall([&] { return sk ? picnic_get_private_key_param(st.data()) : picnic_get_public_key_param(st.data()); });
       if (gp != pb)
-        return (void)o.fail("C11.param_getter", what + ": parameter getter returned " + std::to_string(gp));
+        CHECK_FAIL("C11.param_getter", what + ": parameter getter returned " + std::to_string(gp));
     }
     if (t.stats)
       t.stats->hit("c11.roundtrips");
@@ -355,15 +355,15 @@ void op_export(const Case& c, TaskCtx& t, Outcome& o) {
   std::string what = std::string(p.name) + " " + (sk ? "write_private_key" : "write_public_key") + " surf" + std::to_string(surf) + " capacity " + std::to_string(cap);
   if (cap < size) {
     if (rc > 0)
-      return (void)o.fail("C06.export_success_with_short_buffer", what + ": returned " + std::to_string(rc) + " although the key needs " + std::to_string(size) + " bytes");
+      CHECK_FAIL("C06.export_success_with_short_buffer", what + ": returned " + std::to_string(rc) + " although the key needs " + std::to_string(size) + " bytes");
   } else {
     if (rc != (int)size)
-      return (void)o.fail("C06.export_failed_with_sufficient_buffer", what + ": returned " + std::to_string(rc) + ", expected " + std::to_string(size));
+      CHECK_FAIL("C06.export_failed_with_sufficient_buffer", what + ": returned " + std::to_string(rc) + ", expected " + std::to_string(size));
     if (memcmp(out.p, ser.data(), size) != 0)
-      return (void)o.fail("C11.exported_form", what + ": exported bytes are not parameter byte || key fields");
+      CHECK_FAIL("C11.exported_form", what + ": exported bytes are not parameter byte || key fields");
     for (size_t i = size; i < cap; i++)
       if (out.p[i] != fill)
-        return (void)o.fail("C06.export_wrote_beyond_len", what + ": byte " + std::to_string(i) + " beyond the key was modified");
+        CHECK_FAIL("C06.export_wrote_beyond_len", what + ": byte " + std::to_string(i) + " beyond the key was modified");
   }
 }
 
@@ -390,7 +390,7 @@ void op_sizes(const Case& c, TaskCtx& t, Outcome& o) {
   std::string what = "parameter value " + std::to_string(pb);
   if (!expect_enabled) {
     if (ss || sks || pks)
-      return (void)o.fail(pp ? "C17.disabled_parameter_not_refused" : "C11.size_query_for_invalid_parameter",
+      CHECK_FAIL(pp ? "C17.disabled_parameter_not_refused" : "C11.size_query_for_invalid_parameter",
                           what + ": size queries return " + std::to_string(ss) + "/" + std::to_string(sks) + "/" + std::to_string(pks) + " instead of 0");
     // every operation must refuse it
     bytes sk(tc_sizeof_privatekey, 0), pk(tc_sizeof_publickey, 0), sig(64, 0), buf(128, 0);
@@ -411,39 +411,39 @@ void op_sizes(const Case& c, TaskCtx& t, Outcome& o) {
     };
     for (auto& cl : calls)
       if (cl.rc == 0)
-        return (void)o.fail(pp ? "C17.disabled_parameter_not_refused" : "C11.operation_accepts_invalid_parameter", what + ": " + cl.n + " returned success");
+        CHECK_FAIL(pp ? "C17.disabled_parameter_not_refused" : "C11.operation_accepts_invalid_parameter", what + ": " + cl.n + " returned success");
     bytes wb(128, 0);
     int w1 = libcall(t, [&] { return picnic_write_public_key(pk.data(), wb.data(), wb.size()); });
     int w2 = libcall(t, [&] { return picnic_write_private_key(sk.data(), wb.data(), wb.size()); });
     if (w1 > 0 || w2 > 0)
-      return (void)o.fail(pp ? "C17.disabled_parameter_not_refused" : "C11.operation_accepts_invalid_parameter", what + ": key export returned " + std::to_string(w1) + "/" + std::to_string(w2));
+      CHECK_FAIL(pp ? "C17.disabled_parameter_not_refused" : "C11.operation_accepts_invalid_parameter", what + ": key export returned " + std::to_string(w1) + "/" + std::to_string(w2));
     return;
   }
   const model::Params& p = *pp;
   if (ss == 0 || sks == 0 || pks == 0)
-    return (void)o.fail("C11.enabled_parameter_refused", what + " (" + p.name + "): a size query returned 0");
+    CHECK_FAIL("C11.enabled_parameter_refused", what + " (" + p.name + "): a size query returned 0");
   if (sks != (size_t)1 + 3 * p.ios || pks != (size_t)1 + 2 * p.ios)
-    return (void)o.fail("C11.key_size_query", std::string(p.name) + ": key sizes " + std::to_string(sks) + "/" + std::to_string(pks) + " differ from 1+3b / 1+2b");
+    CHECK_FAIL("C11.key_size_query", std::string(p.name) + ": key sizes " + std::to_string(sks) + "/" + std::to_string(pks) + " differ from 1+3b / 1+2b");
   if (sks != tc_sk_size_macro[pb] || pks != tc_pk_size_macro[pb] || tc_block_size_macro[pb] != (unsigned long)p.ios)
-    return (void)o.fail("C11.key_size_constant", std::string(p.name) + ": documented key size constants disagree with the size queries");
+    CHECK_FAIL("C11.key_size_constant", std::string(p.name) + ": documented key size constants disagree with the size queries");
   if (ss != tc_sig_size_macro[pb])
-    return (void)o.fail("C13.size_query_differs_from_constant", std::string(p.name) + ": picnic_signature_size = " + std::to_string(ss) + " but the documented constant is " + std::to_string(tc_sig_size_macro[pb]));
+    CHECK_FAIL("C13.size_query_differs_from_constant", std::string(p.name) + ": picnic_signature_size = " + std::to_string(ss) + " but the documented constant is " + std::to_string(tc_sig_size_macro[pb]));
   if (!name || std::string(name) != p.name)
-    return (void)o.fail("C11.param_name", std::string(p.name) + ": name query returned " + (name ? name : "(null)"));
+    CHECK_FAIL("C11.param_name", std::string(p.name) + ": name query returned " + (name ? name : "(null)"));
   if (surface_available(1, pb)) {
     const ParamApi& a = param_api(pb);
     if (a.signature_size() != ss || a.get_private_key_size() != sks || a.get_public_key_size() != pks)
-      return (void)o.fail("C16.per_parameter_size_queries", std::string(p.name) + ": per-parameter size queries disagree with the generic ones");
+      CHECK_FAIL("C16.per_parameter_size_queries", std::string(p.name) + ": per-parameter size queries disagree with the generic ones");
   }
   if (surface_available(2, pb)) {
     const NistApi& na = nist_api(pb);
     if (na.consts[0] != sks || na.consts[1] != pks || na.consts[2] != 4 + ss)
-      return (void)o.fail("C16.nist_constants", std::string(p.name) + ": CRYPTO_SECRETKEYBYTES/PUBLICKEYBYTES/BYTES disagree with the generic sizes");
+      CHECK_FAIL("C16.nist_constants", std::string(p.name) + ": CRYPTO_SECRETKEYBYTES/PUBLICKEYBYTES/BYTES disagree with the generic sizes");
   }
   if (c.s("chk").find("c13") != std::string::npos) {
     size_t tm = model::true_max_sig_size(p);
     if (ss < tm)
-      return (void)o.fail("C13.advertised_below_true_maximum", std::string(p.name) + ": advertised " + std::to_string(ss) + " < true maximum " + std::to_string(tm));
+      CHECK_FAIL("C13.advertised_below_true_maximum", std::string(p.name) + ": advertised " + std::to_string(ss) + " < true maximum " + std::to_string(tm));
     if (t.stats)
       t.stats->hit("c13.size_table_rows");
   }
@@ -502,17 +502,17 @@ void op_nist(const Case& c, TaskCtx& t, Outcome& o) {
     o.summary = "rc=" + std::to_string(rcs[0]) + "/" + std::to_string(rcs[1]) + "/" + std::to_string(rcs[2]);
     for (int s = 0; s < 3; s++)
       if (rcs[s] != -99 && rcs[s] != 0)
-        return (void)o.fail("C16.keypair_failed", std::string(p.name) + ": key generation failed on surface " + std::to_string(s));
+        CHECK_FAIL("C16.keypair_failed", std::string(p.name) + ": key generation failed on surface " + std::to_string(s));
     for (int s = 1; s < 3; s++)
       if (rcs[s] != -99 && keys[s] != keys[0])
-        return (void)o.fail("C16.keys_differ_between_surfaces", std::string(p.name) + ": the same entropy gives different keys through surface " + std::to_string(s) +
+        CHECK_FAIL("C16.keys_differ_between_surfaces", std::string(p.name) + ": the same entropy gives different keys through surface " + std::to_string(s) +
                                                                     " and the generic interface (beyond the leading parameter byte)");
     return;
   }
   // honest generic signature as reference
   bytes gsig;
   if (!honest_signature(k, msg, gsig))
-    return (void)o.fail("C01.sign_failed", std::string(p.name) + ": generic signing failed");
+    CHECK_FAIL("C01.sign_failed", std::string(p.name) + ": generic signing failed");
   size_t mx = picnic_signature_size(param);
   if (sub == "sign") {
     std::string ov = c.s("overlap", "disjoint");
@@ -541,28 +541,28 @@ void op_nist(const Case& c, TaskCtx& t, Outcome& o) {
     if (t.stats)
       t.stats->tuple(std::string(p.name) + "|nist_sign|" + ov + "|" + (rc == 0 ? "ok" : "err"));
     if (rc != 0)
-      return (void)o.fail("C16.nist_sign_failed", std::string(p.name) + ": crypto_sign returned " + std::to_string(rc));
+      CHECK_FAIL("C16.nist_sign_failed", std::string(p.name) + ": crypto_sign returned " + std::to_string(rc));
     if (smlen != 4 + msg.size() + gsig.size())
-      return (void)o.fail("C16.signed_message_length", std::string(p.name) + ": smlen " + std::to_string(smlen) + " != 4 + mlen + siglen = " + std::to_string(4 + msg.size() + gsig.size()));
+      CHECK_FAIL("C16.signed_message_length", std::string(p.name) + ": smlen " + std::to_string(smlen) + " != 4 + mlen + siglen = " + std::to_string(4 + msg.size() + gsig.size()));
     uint32_t pre = sm.p[0] | (sm.p[1] << 8) | (sm.p[2] << 16) | ((uint32_t)sm.p[3] << 24);
     if (pre != gsig.size())
-      return (void)o.fail("C16.length_prefix", std::string(p.name) + ": length prefix " + std::to_string(pre) + " is not the little-endian signature length " + std::to_string(gsig.size()));
+      CHECK_FAIL("C16.length_prefix", std::string(p.name) + ": length prefix " + std::to_string(pre) + " is not the little-endian signature length " + std::to_string(gsig.size()));
     if (memcmp(sm.p + 4, msg.data(), msg.size()) != 0)
-      return (void)o.fail("C16.message_not_embedded", std::string(p.name) + ": signed message does not contain the message after the prefix (overlap=" + ov + ")");
+      CHECK_FAIL("C16.message_not_embedded", std::string(p.name) + ": signed message does not contain the message after the prefix (overlap=" + ov + ")");
     if (memcmp(sm.p + 4 + msg.size(), gsig.data(), gsig.size()) != 0)
-      return (void)o.fail("C16.signature_differs_from_generic", std::string(p.name) + ": embedded signature differs from picnic_sign");
+      CHECK_FAIL("C16.signature_differs_from_generic", std::string(p.name) + ": embedded signature differs from picnic_sign");
     if (gsig.size() > mx)
-      return (void)o.fail("C16.len_exceeds_max", "signature longer than the advertised maximum");
+      CHECK_FAIL("C16.len_exceeds_max", "signature longer than the advertised maximum");
     for (size_t i = (size_t)smlen; i < smcap; i++)
       if (sm.p[i] != 0xC7)
-        return (void)o.fail("C16.wrote_beyond_smlen", std::string(p.name) + ": byte " + std::to_string(i) + " beyond smlen modified");
+        CHECK_FAIL("C16.wrote_beyond_smlen", std::string(p.name) + ": byte " + std::to_string(i) + " beyond smlen modified");
     // per-parameter surface signs identically
     if (surface_available(1, param)) {
       bytes ps(mx);
       size_t pl = mx;
       int r1 = cleancall([&] { return s_sign(1, k, msg.data(), msg.size(), ps.data(), &pl); });
       if (r1 != 0 || pl != gsig.size() || memcmp(ps.data(), gsig.data(), pl) != 0)
-        return (void)o.fail("C16.per_parameter_signature_differs", std::string(p.name) + ": <param>_sign output differs from picnic_sign");
+        CHECK_FAIL("C16.per_parameter_signature_differs", std::string(p.name) + ": <param>_sign output differs from picnic_sign");
     }
     return;
   }
@@ -620,6 +620,32 @@ void op_nist(const Case& c, TaskCtx& t, Outcome& o) {
       size_t bit = (size_t)(c.u("bit") % (8 * pkd.size()));
       pkd[bit >> 3] ^= (uint8_t)(0x80 >> (bit & 7));
       desc = "public key bit " + std::to_string(bit) + " flipped";
+    } else if (ff == "zerowin") {
+      // LE32(L) || zeros with smlen = L + w: for w < 4 the frame cannot hold header + signature; the all-zero body is a
+      // well-formed (all-zero challenge) signature at every offset, so a wrong offset computation goes deep
+      if (p.kkw) {
+        o.skipped = true;
+        return;
+      }
+      std::vector<uint8_t> e0(p.T, 0);
+      uint32_t Lz = (uint32_t)model::zkb_sig_size(p, e0);
+      size_t w = (size_t)(c.u("n") % 9);
+      frame.assign(Lz + w, 0);
+      for (int i = 0; i < 4; i++)
+        frame[i] = (uint8_t)(Lz >> (8 * i));
+      desc = "LE32(" + std::to_string(Lz) + ") || zeros, frame length L+" + std::to_string(w);
+    } else if (ff == "reroll") {
+      auto lay = model::sig_layout(p, gsig);
+      for (auto& f : lay) {
+        if (f.name == "challenge" || f.len == 0)
+          continue;
+        size_t base = 4 + msg.size();
+        for (size_t i = 0; i < f.len; i++)
+          frame[base + f.off + i] = (uint8_t)(r.next() >> 56);
+        if (f.padbits)
+          frame[base + f.off + f.len - 1] &= (uint8_t)(0xff << f.padbits);
+      }
+      desc = "embedded signature re-rolled (well-formed)";
     } else if (ff == "arbitrary") {
       size_t n = (size_t)(c.u("n") % (frame.size() + 64));
       frame = r.take(n);
@@ -662,14 +688,14 @@ void op_nist(const Case& c, TaskCtx& t, Outcome& o) {
     if (t.stats)
       t.stats->tuple(std::string(p.name) + "|nist_open|" + ff + "|" + ov + "|" + (rc == 0 ? "opened" : "refused"));
     if (ov == "disjoint" && memcmp(smb.p, frame.data(), smlen) != 0)
-      return (void)o.fail("C05.const_input_modified", std::string(p.name) + ": crypto_sign_open modified its const signed message");
+      CHECK_FAIL("C05.const_input_modified", std::string(p.name) + ": crypto_sign_open modified its const signed message");
     if (intact) {
       if (rc != 0)
-        return (void)o.fail("C16.open_rejected_valid", std::string(p.name) + ": crypto_sign_open rejected an intact signed message (overlap=" + ov + ", mlen=" + std::to_string(msg.size()) + ")");
+        CHECK_FAIL("C16.open_rejected_valid", std::string(p.name) + ": crypto_sign_open rejected an intact signed message (overlap=" + ov + ", mlen=" + std::to_string(msg.size()) + ")");
       if (mlen != msg.size() || memcmp(mp, msg.data(), msg.size()) != 0)
-        return (void)o.fail("C16.opened_message_wrong", std::string(p.name) + ": opened message/length wrong (overlap=" + ov + ", mlen " + std::to_string(mlen) + " vs " + std::to_string(msg.size()) + ")");
+        CHECK_FAIL("C16.opened_message_wrong", std::string(p.name) + ": opened message/length wrong (overlap=" + ov + ", mlen " + std::to_string(mlen) + " vs " + std::to_string(msg.size()) + ")");
     } else if (rc == 0)
-      return (void)o.fail("C16.open_accepted_invalid", std::string(p.name) + ": crypto_sign_open accepted although " + desc);
+      CHECK_FAIL("C16.open_accepted_invalid", std::string(p.name) + ": crypto_sign_open accepted although " + desc);
     return;
   }
   o.machinery = true;
